@@ -32,13 +32,13 @@ P = {
          "gridDistance and local IJ round trips for all ordered pairs of complete coarse resolutions and radius-bounded balls in the families, compared with BFS distance on G_geo; ij->cell->ij squares from every origin of the complete resolutions; extreme IJ incl. the int32 wrap points k*2^31/7; mixed-resolution pairs over all base cells.",
          "Distances beyond the stated radii at fine resolutions are not explored.", "4-C09"),
  "C10": ("model_checking", "complete enumeration vs G_geo adjacency and shared stretch",
-         "Every (cell, neighbour) and near non-neighbour pair of complete coarse resolutions and the families; every candidate edge index over modes x reserved bits.",
+         "Every (cell, neighbour) and near non-neighbour pair (same resolution at distance 0,2,3; parent, children and centre grandchild of every cell within distance 3, both argument orders) of complete coarse resolutions and the families; every candidate edge index over modes x reserved bits.",
          "G_geo trusted as for C05.", "4-C10"),
  "C11": ("model_checking", "complete enumeration vs three-cells-one-index and 2N-4",
          "Every (cell, vertex) of complete coarse resolutions and the families; canonical-form check of every candidate vertex index; global count identity.",
          "G_geo trusted as for C05.", "4-C11"),
  "C12": ("model_checking", "exhaustive argument-alphabet products under ASan/UBSan with live internal assertions",
-         "Every exported function over the product of finite hostile argument alphabets (index alphabet, INTS, DBLS), malformed aggregates (degenerate polygons, polar/global cell sets, polygon fills into ASan-exact buffers smaller than the result) and depth-bounded call sequences, on an ASan+UBSan build without NDEBUG.",
+         "Every exported function over the product of finite hostile argument alphabets (index alphabet, INTS, DBLS), malformed aggregates (degenerate polygons, tiny shells with many-vertex ring holes, polar/global cell sets, polygon fills into ASan-exact buffers smaller than the result) and depth-bounded call sequences, on an ASan+UBSan build without NDEBUG.",
          "Argument values outside the alphabets are not explored; sanitizers are the oracle for memory safety.", "4-C12"),
  "C13": ("model_checking", "bounded exhaustive enumeration vs lexicographic rank by counting",
          "Every (parent, child resolution, position) for complete coarse parents and structured positions to depth 15, compared with an independent rank/unrank by counting.",
@@ -53,7 +53,7 @@ P = {
          "Every set of a catalogue (disks, holes, islands, components) at all 16 resolutions through cellsToLinkedMultiPolygon; component count on G_geo, loop orientation, vertex membership, per-component loop ownership and area balance, allocator ledger; polar sets and sets with a planted non-cell under a ledger-only oracle (error clause).",
          "Sets outside the catalogue not explored.", "4-C16"),
  "C17": ("fault_enumeration", "exhaustive allocation-failure enumeration (every index, pairs) with ledger allocator",
-         "For every input of the alphabet (disks from valid and invalid origins, neighbour pairs, single- and multi-base-cell compactions, catalogue and degenerate polygons in all modes, sufficient and insufficient capacities), every allocation index is failed in turn (single, persistent, pairs) on the real code through the library's own H3_ALLOC_PREFIX seam; the ledger allocator decides leaks/double frees and the result code.",
+         "For every input of the alphabet (disks from valid and invalid origins, neighbour pairs, single- and multi-base-cell compactions, catalogue and degenerate polygons in all modes, resolutions outside 0..15, sufficient and insufficient capacities), every allocation index is failed in turn (single, persistent, pairs) on the real code through the library's own H3_ALLOC_PREFIX seam; the ledger allocator decides leaks/double frees and the result code.",
          "Inputs outside the alphabet not explored.", "4-C17"),
  "C18": ("model_checking", "stateless preemption-bounded schedule enumeration on real threads (cooperative scheduler, function-entry granularity) + write-trap on library static storage + history pairs; supporting free-running ThreadSanitizer pass",
          "Three binaries from /repo's working tree. (1) write-trap: the library's .data/.bss are renamed, page-bracketed and mprotect(PROT_READ)-ed while a broad product of workloads covering every exported function runs: any write to library-owned static storage is a violation. (2) scheduler: library compiled with -finstrument-functions; every library function entry and allocator call is a scheduling point; stateless DFS over ALL schedules with <=1 preemption of every pair of a 58-call alphabet at fine granularity (covers every state and transition of the product of the two point sequences), <=2 at API/allocator granularity and for small pairs at fine granularity, core triples on three threads, and allocation-fault x schedule; every execution runs to completion on the real code and each thread's serialised outputs must be byte-identical to the sequential reference; library static storage is hashed at every choice point; the ledger must be empty. (3) history: all ordered call pairs, q after p == q in a fresh process, with heap/stack poisoning. (4) supporting: free-running threads under ThreadSanitizer; undefined symbols vs a deny-list of non-re-entrant libc functions.",
